@@ -134,6 +134,20 @@ func cellFrames(cols, rows int, sizes [][2]int) []frame {
 	return fs
 }
 
+// wideFrames: a small alphabet for deep searches of wide/narrow/never-written overlaps.
+func wideFrames(cols int) []frame {
+	var fs []frame
+	for fin := 0; fin <= 1; fin++ {
+		fs = append(fs, frame{Finish: fin})
+		for col := 0; col < cols; col++ {
+			for _, v := range []int{0, 2, 6, 7} {
+				fs = append(fs, frame{Write: 1, Col: col, Val: v, Finish: fin})
+			}
+		}
+	}
+	return fs
+}
+
 func cursorFrames() []frame {
 	var fs []frame
 	for w := 0; w <= 2; w++ {
@@ -556,6 +570,13 @@ func configs(thorough bool) []*config {
 	add("cells-3x1-sync", 3, 1, "sync", nil, false)
 	add("cells-3x1-inband", 3, 1, "inband", [][2]int{{4, 1}, {2, 2}}, false)
 	add("cells-4x1-kitty", 4, 1, "kitty", nil, false)
+	for _, wc := range []struct {
+		name string
+		cols int
+		prof string
+	}{{"wide-3x1-none", 3, "none"}, {"wide-4x1-unicode", 4, "unicode"}} {
+		cs = append(cs, &config{Name: wc.name, Cols: wc.cols, Rows: 1, Prof: p[wc.prof], Frames: wideFrames(wc.cols)})
+	}
 	add("cursor-2x2-none", 2, 2, "none", nil, true)
 	add("cursor-2x2-all", 2, 2, "all", nil, true)
 	if thorough {
@@ -579,6 +600,9 @@ func main() {
 		d := depthCells
 		if strings.HasPrefix(c.Name, "cursor") {
 			d = depthCursor
+		}
+		if strings.HasPrefix(c.Name, "wide") {
+			d = r.Pick(4, 6)
 		}
 		return &explore.BFS{R: r, Name: c.Name, NumOps: len(c.Frames), MaxDepth: d,
 			RunPath: func(p []uint16) (uint64, explore.Status) { return runPath(c, p) }}
